@@ -87,7 +87,7 @@ Definition absurl_of (i : term) : string -> bool :=
   let t := btab_of (gn i 8) in fun f => match assoc_s t f with Some b => b | None => false end.
 
 Definition run_fetch (i : term) : term :=
-  match fetch_symbolize (in_mode i) (env_of i) (absurl_of i) (in_script i) (in_src i) (in_profile i) with
+  match fetch_generic_ru (builtin_plugin (env_of i) (in_script i)) (in_mode i) (absurl_of i) (in_src i) (in_profile i) with
   | FOut p' calls => TL [TS "ok"; of_profile p'; TL (map of_call calls); TZ 1 (* the saved copy agrees *);
                          TZ 1 (* Go's CheckValid accepts the returned profile *)]
   | FErr calls => TL [TS "err"; TL (map of_call calls)]
@@ -103,7 +103,7 @@ Definition cli_of (i : term) : cliopts := {| c_exec := gs (gn i 9); c_buildid :=
 Definition of_rows (t : list (string * bool)) : term := TL (map (fun r => TL [TS (fst r); of_bool (snd r)]) t).
 
 Definition run_e2e (i : term) : term :=
-  match fetch_cli (builtin_plugin (env_of i) (in_script i)) (cli_of i) (in_mode i) (absurl_of i) (in_src i) (in_profile i) with
+  match fetch_cli_ru (builtin_plugin (env_of i) (in_script i)) (cli_of i) (in_mode i) (absurl_of i) (in_src i) (in_profile i) with
   | FOut p' calls => TL [TS "ok"; of_profile p'; TL (map of_rows (traces_view p')); TZ 1; TZ 1; TL (map of_call calls)]
   | FErr calls => TL [TS "err"; TL (map of_call calls)]
   | FPanic => TL [TS "panic"; TS "model"]
@@ -133,7 +133,7 @@ Definition run_fetchx (i : term) : term :=
   let ans := gn i 2 in
   let absurl := let t := btab_of (gn i 4) in fun f => match assoc_s t f with Some b => b | None => false end in
   let plug : plugin_t := fun _ _ _ => Some (profile_of (gn ans 0), gb (gn ans 1), gb (gn ans 2), []) in
-  match fetch_generic plug (gs (gn i 0)) absurl (gs (gn i 3)) (profile_of (gn i 1)) with
+  match fetch_generic_ru plug (gs (gn i 0)) absurl (gs (gn i 3)) (profile_of (gn i 1)) with
   | FOut p' _ => TL [TS "ok"; of_profile p'; TZ 1]
   | FErr _ => TL [TS "err"]
   | FPanic => TL [TS "panic"; TS "model"]
@@ -195,8 +195,10 @@ Definition spec_fetch (i o : term) : bool :=
   else
     let p := add_fake (in_profile i) in
     let p' := profile_of (gn o 1) in
-    frame_okb p p' && lines_attachedb p p' && flags_raisedb p p' &&
-    (force_requested (in_mode i) || left_aloneb p p') &&
+    (* stacks may be shorter / lines cut only when some function name IS an alternative of drop_frames *)
+    let pd := droppable p' in
+    frame_okb p (if pd then with_stacks_of p' p else p') && (pd || lines_attachedb p p') && flags_raisedb p p' &&
+    (force_requested (in_mode i) || pd || left_aloneb p p') &&
     check_valid p' && gb (gn o 3) && gb (gn o 4) &&
     (negb (filter_tables_nonempty i) || names_keptb p p').
 
@@ -209,8 +211,9 @@ Definition spec_e2e (i o : term) : bool :=
   else
     let p := add_comment (cli_of i) (cli_input (cli_of i) (in_profile i)) in
     let p' := profile_of (gn o 1) in
-    frame_okb p p' && lines_attachedb p p' && flags_raisedb p p' &&
-    (force_requested (in_mode i) || left_aloneb p p') &&
+    let pd := droppable p' in
+    frame_okb p (if pd then with_stacks_of p' p else p') && (pd || lines_attachedb p p') && flags_raisedb p p' &&
+    (force_requested (in_mode i) || pd || left_aloneb p p') &&
     check_valid p' && gb (gn o 3) && gb (gn o 4) &&
     traces_match (TL (map of_rows (traces_view p'))) (gn o 2) &&
     (negb (filter_tables_nonempty i) || names_keptb p p').
